@@ -14,11 +14,13 @@ CONSTANTS
  PublishOnlyLatest = TRUE
  HoldVfsAcrossApply = FALSE
  SnapshotInTask = FALSE
+ CancelledAnsweredOk = FALSE
+ AnsFree = FALSE
  PollWhileWaiting = FALSE
  PreFixF9 = FALSE
  ThirdPartyFatal = FALSE
  Gen = "none"
  ScriptLen = 0
 SPECIFICATION Spec
-INVARIANTS TypeOK NoDeadlock AtMostOneResponse AllAnswered NoMixture IssuedVersion Convergence LockDiscipline Alive
+INVARIANTS TypeOK NoDeadlock AtMostOneResponse AllAnswered NoMixture IssuedVersion AnswerContent Convergence LockDiscipline Alive
 CHECK_DEADLOCK FALSE
